@@ -768,13 +768,15 @@ def stream_complex(ctx):
     import symmray as sr
 
     rng = ctx.rng
-    for k in range(4 if ctx.tier == "quick" else 20):
+    for k in range(6 if ctx.tier == "quick" else 30):
         c = complex(rng.randint(-3, 3), rng.choice([-1, 1]) * rng.randint(1, 3))
-        terms = [(c, [("a", True), ("b", False)]), (np.conj(c), [("b", True), ("a", False)])]
+        # the coefficient as a python complex and as numpy complex scalars (np.complex64 is not a python complex)
+        ctype = [complex, np.complex128, np.complex64][k % 3]
+        terms = [(ctype(c), [("a", True), ("b", False)]), (ctype(np.conj(c)), [("b", True), ("a", False)])]
         bases = [[[], [("a", True)]], [[], [("b", True)]]]
         sym = rng.choice(["Z2", "U1"])
         ctx.evaluations += 1
-        ctx.stat("d:complex")
+        ctx.stat("d:complex:" + ctype.__name__)
         H, idxs = fock_matrix(terms, bases)
         expect = (bra_sign(bases, idxs)[:, None] * H).reshape(2, 2, 2, 2)
         with warnings.catch_warnings(record=True) as wl:
